@@ -89,7 +89,13 @@ func brMethods() handler.Map {
 			return nil, jrpc2.Errorf(jrpc2.InvalidParams, "no good").WithData([]int{1, 2})
 		},
 		"plain": func(context.Context, *jrpc2.Request) (any, error) { return nil, fmt.Errorf("plain failure") },
-		"note":  func(context.Context, *jrpc2.Request) (any, error) { return nil, nil },
+		// handlers that report a context error of their own (an internal time budget, say): the caller sees the
+		// same thing over HTTP as over a direct connection
+		"deadline": func(context.Context, *jrpc2.Request) (any, error) { return nil, context.DeadlineExceeded },
+		"cancelled": func(context.Context, *jrpc2.Request) (any, error) {
+			return nil, &jrpc2.Error{Code: jrpc2.Cancelled, Message: "gave up"}
+		},
+		"note": func(context.Context, *jrpc2.Request) (any, error) { return nil, nil },
 	}
 }
 
@@ -143,7 +149,7 @@ func brExec(cli *jrpc2.Client, op brOp) string {
 }
 
 func brGenOp(g *rng, tag string) brOp {
-	methods := []string{"echo", "echo", "echo", "fail", "plain", "nosuch", "note"} // not rpc.serverInfo: its metrics are process-global counters
+	methods := []string{"echo", "echo", "echo", "fail", "plain", "nosuch", "note", "deadline", "cancelled"} // not rpc.serverInfo: its metrics are process-global counters
 	mk := func(i int) (string, string) {
 		return pick(g, methods), fmt.Sprintf(`{"t":"%s.%d","v":%d}`, tag, i, g.intn(100))
 	}
